@@ -45,8 +45,9 @@ FairSpec == Spec /\ WF_vars(Tick /\ counter > currCount) /\ WF_vars(WaiterCheck)
 (* safety: a parked waiter has seen everything, or a broadcast is still due *)
 NoLostUpdate == pc = "parked" => (lastSeen = kc \/ counter > currCount)
 TypeOK == counter \in 1..(MaxNotify + 1) /\ kc <= counter /\ currCount <= counter /\ lastSeen <= kc
-(* liveness: every notification of a watched key is eventually seen by the waiter (it runs again with that count) *)
-Seen == \A n \in 1..(MaxNotify + 1) : (kc = n) ~> (lastSeen >= n /\ pc = "running")
+(* liveness: every notification of a watched key is eventually seen by the waiter (lastSeen is only assigned when
+   Wait returns, i.e. when the waiter becomes "running" again) *)
+Seen == \A n \in 1..(MaxNotify + 1) : (kc = n) ~> (lastSeen >= n)
 (* the same without the ticker is false (the waiter may stay parked): checked once by hand, see NOTES.md *)
 NoTickSpec == Init /\ [][NotifyWatched \/ NotifyOther \/ WaiterCall \/ WaiterCheck]_vars /\ WF_vars(WaiterCheck) /\ WF_vars(WaiterCall)
 =============================================================================
